@@ -48,7 +48,7 @@ def run_case(rng, i, covered):
     """calls all shared functions once; returns violations"""
     from xfab import tools as T, laue as L
     out = []
-    c, ckind = gens.cell(rng)
+    c, ckind = gens.cell(rng, scaled=True)
     U, ukind = gens.rotation(rng, 'uniform' if i % 2 else None)
     eps = [rng.uniform(-0.1, 0.1) for _ in range(6)]
     h = gens.hkl(rng, 6)
@@ -241,7 +241,7 @@ def hkl_cases(rng, covered, n):
                 out.append({'fn': 'sysabs', 'input': {'hkl': h, 'sgno': s['no']}, 'observed': 'differ', 'expected': 'equal', 'known_id': None})
     # reduce_cell
     for _ in range(max(2, n // 4)):
-        c, _k = gens.cell(rng)
+        c, _k = gens.cell(rng, scaled=True)
         covered.add('reduce_cell')
         a, b = T.reduce_cell(c), L.reduce_cell(c)
         if not same(a, b, rtol=1e-9):
